@@ -5,6 +5,7 @@ import (
 	"math/rand"
 	"os"
 	"path/filepath"
+	"strings"
 	"sync"
 	"time"
 )
@@ -78,10 +79,20 @@ func getFilePath(path string, suffix string) string {
 }
 
 func RLockExists(path string) bool {
-	dir := filepath.Dir(path)
-	basename := filepath.Base(path)
-	match, _ := filepath.Glob(filepath.Join(dir, "."+basename) + ".*" + RLockFileSuffix)
-	return match != nil
+	// The name of the table is compared as it is, not as a pattern: a name such as "a[1].csv"
+	// would match no file in filepath.Glob.
+	prefix := "." + filepath.Base(path) + "."
+	entries, err := os.ReadDir(filepath.Dir(path))
+	if err != nil {
+		return false
+	}
+	for _, entry := range entries {
+		name := entry.Name()
+		if len(prefix)+len(RLockFileSuffix) <= len(name) && strings.HasPrefix(name, prefix) && strings.HasSuffix(name, RLockFileSuffix) {
+			return true
+		}
+	}
+	return false
 }
 
 func LockExists(path string) bool {
